@@ -2,9 +2,11 @@
 from . import c05_c16_flow as flow
 
 MODULE = "StorageModel.Properties.C16"
-THEOREMS = ["system_needs_system_ctx", "refused_tx_unchanged", "refused_aborts", "system_needs_system_ctx_tx",
+THEOREMS = ["system_needs_system_ctx", "system_needs_system_ctx_parent_registration",
+            "system_needs_system_ctx_child_registration", "refused_tx_unchanged", "refused_aborts", "system_needs_system_ctx_tx",
             "ordinary_step_preserves_system", "ordinary_tx_preserves_system", "ordinary_history_preserves_system",
-            "cascade_never_deletes_system",
+            "ordinary_history_preserves_system_parent_registration", "ordinary_history_preserves_system_child_registration",
+            "step_reg", "cascade_never_deletes_system",
             "system_ctx_allowed", "flag_immutable", "flag_change_needs_system_child_create",
             "update_never_changes_flag", "setBaseValues_update_keeps", "createBaseValues_never_clears",
             "ordinary_unaffected",
@@ -41,6 +43,7 @@ def nontrivial(case, impl):
     return None
 
 
+_REG = {"H": "on-S", "HC": "on-child-store-only", "HB": "on-both", "HN": "nowhere"}
 _CTX = {"o": "ordinary", "s": "system", "n": "nested-update-system", "m": "nested-update-own"}
 _WITH_CTX = ("c", "u", "d", "C", "U", "D", "oc", "od", "w")
 
@@ -50,6 +53,7 @@ def histogram(case, impl, h):
         h[k] = h.get(k, 0) + 1
     f = case.split(" ")
     ntx = len(f) - 2
+    inc("constraint-registered:" + _REG.get(f[0], f[0]))
     inc(f"transactions:{min(ntx, 9)}")
     for tx in f[2:]:
         head, _, body = tx.partition("!")
@@ -120,7 +124,8 @@ def describe(case, impl, model, spec):
                     "on error": "abort" if head[1] == "a" else "ignore (unless the failed call left partial writes) and commit",
                     "ops": [op(o) for o in body.split(";")]})
     pools = f[1].split("/")
-    return {"kind": "history", "pool": [_unhex(k) for k in pools[0].split(",")],
+    return {"kind": "history", "system entity constraint registered": _REG.get(f[0], f[0]),
+            "pool": [_unhex(k) for k in pools[0].split(",")],
             "owner pool": [_unhex(k) for k in pools[1].split(",")] if len(pools) > 1 and pools[1] else [],
             "transactions": txs, "impl": impl, "model": model, "spec": spec, "case": case}
 
@@ -129,7 +134,8 @@ MATCHERS = {}
 
 RULE = ("each case is a history of Db.Update transactions over real stores on a fresh bolt file: the constrained store S of "
         "ext-entities (system-entity constraint, fk `owner` with CascadeDelete to a second store O, link collection to O), "
-        "a child store C of S; every Create/Update carries the WHOLE in-memory entity (IsSystem, Migrate, CreatedAt, "
+        "a child store C of S; the constraint is registered on S (H), on C only (HC), on both (HB) or nowhere (HN), drawn per case; "
+        "every Create/Update carries the WHOLE in-memory entity (IsSystem, Migrate, CreatedAt, "
         "UpdatedAt, Tags, name, owner). (1) exhaustive two-step histories on S: create (ordinary|system ctx) x (IsSystem t|f) "
         "x (Migrate t|f), then delete / re-create / update (IsSystem t|f) x (Migrate t|f) x (checker nil, name, isSystem, "
         "all fields, empty) from either context, in the same or a later transaction, Db.Update handed an ordinary or a "
@@ -138,7 +144,8 @@ RULE = ("each case is a history of Db.Update transactions over real stores on a 
         "from every kind of context (own, GetSystemContext(), nested Db.Update with the system context, nested Db.Update "
         "with the own context after a system context was derived), DeleteWhere by 7 queries, child-store Create / Update / "
         "DeleteById over a system / ordinary / missing parent with or without child data, link / unlink and deleting the "
-        "far end, each followed by direct attempts from an ordinary context and a read-back; (3) random histories (2-7 "
+        "far end, each followed by direct attempts from an ordinary context and a read-back — all of (2) with the constraint on S, and "
+        "thinned out (entities created through S or through C) with the constraint on C only and on both; (3) random histories (2-7 "
         "transactions of 1-4 operations over 2-4 ids and 1-3 owners) mixing all operations and context kinds, IsSystem 1/2, "
         "Migrate 2/5, timestamps from {zero, 1000, 2000, 3000}, tags nil or a value, 16 checker shapes. After every "
         "operation the error kind, after a failing operation the uncommitted state, after every transaction FindById "
@@ -188,7 +195,7 @@ def run(ctx, replay_cases=None):
         "bbolt: Db.Update commits iff the body returns nil, otherwise nothing is written (exercised by the correspondence on every run)",
         "every typed setter of PersistContext/TypedBucket is a no-op once the bucket's error holder is set (ProceedWithSet; exercised by the keep-going histories: a refused update that is ignored and committed leaves the entity unchanged)",
         "the entity's PersistEntity uses BaseExtEntity.SetBaseValues (a store whose strategy writes isSystem itself is outside the model)",
-        "the universe of the model: one constrained store with one nullable cascade-delete fk and one link collection to a second store, one plain child store, the system constraint registered after the fk constraint (other schemas: more fks, restrict instead of cascade, extended child stores, constraint orders are outside the model)",
+        "the universe of the model: one constrained store with one nullable cascade-delete fk and one link collection to a second store, one plain child store, the system constraint registered after the fk constraint on the parent store, after the level symbol on the child store (registration on S / C / both / nowhere is a parameter) (other schemas: more fks, restrict instead of cascade, extended child stores, constraint orders are outside the model)",
         "link collections are outside the property: they take a bare *bbolt.Tx, no MutateContext, so the constraint cannot apply (the model records what they do; the theorems state everything but the link set of a system entity is untouched by ordinary contexts)",
         "a persisted timestamp is compared as: zero time / one of the values the generator hands out / anything else = the clock",
     ]
